@@ -514,6 +514,7 @@ func (t *Table) InsertColumn(position int, data []string, width int) error {
 	}
 
 	// 更新表格网格
+	t.ensureGrid(colCount)
 	newGridCol := TableGridCol{
 		W: fmt.Sprintf("%d", width),
 	}
@@ -567,6 +568,24 @@ func (t *Table) InsertColumn(position int, data []string, width int) error {
 	return nil
 }
 
+// ensureGrid 确保表格网格存在并覆盖 colCount 列。
+// 从缺少 w:tblGrid（或网格列数不足）的文档读入的表格没有完整的网格定义，
+// 缺失的网格列宽度取自第一行对应单元格的宽度。
+func (t *Table) ensureGrid(colCount int) {
+	if t.Grid == nil {
+		t.Grid = &TableGrid{}
+	}
+	for i := len(t.Grid.Cols); i < colCount; i++ {
+		w := "0"
+		if len(t.Rows) > 0 && i < len(t.Rows[0].Cells) {
+			if p := t.Rows[0].Cells[i].Properties; p != nil && p.TableCellW != nil && p.TableCellW.W != "" {
+				w = p.TableCellW.W
+			}
+		}
+		t.Grid.Cols = append(t.Grid.Cols, TableGridCol{W: w})
+	}
+}
+
 // AppendColumn 在表格末尾添加列
 func (t *Table) AppendColumn(data []string, width int) error {
 	colCount := 0
@@ -592,6 +611,7 @@ func (t *Table) DeleteColumn(colIndex int) error {
 	}
 
 	// 删除网格列
+	t.ensureGrid(colCount)
 	t.Grid.Cols = append(t.Grid.Cols[:colIndex], t.Grid.Cols[colIndex+1:]...)
 
 	// 删除每行的对应单元格
@@ -620,6 +640,7 @@ func (t *Table) DeleteColumns(startIndex, endIndex int) error {
 	}
 
 	// 删除网格列范围
+	t.ensureGrid(colCount)
 	t.Grid.Cols = append(t.Grid.Cols[:startIndex], t.Grid.Cols[endIndex+1:]...)
 
 	// 删除每行的对应单元格范围
